@@ -400,6 +400,11 @@ func renameConflictColumns(b *block, conflictColumns map[string]map[string]struc
 
 func collectConflictColumns(parts []*partWrapper) map[string]map[string]struct{} {
 	familyColumnTypes := make(map[string]map[string]map[pbv1.ValueType]struct{})
+	// Columns that an earlier merge already stored under a typed name. They stay typed
+	// even if the other type has meanwhile disappeared (e.g. all its points were
+	// superseded): a plain column of the same name merged next to a typed one would be
+	// shadowed on read, which looks up the typed name first.
+	alreadyTyped := make(map[string]map[string]struct{})
 	for _, pw := range parts {
 		for cf, cc := range pw.p.tagType {
 			columnTypes := familyColumnTypes[cf]
@@ -415,13 +420,19 @@ func collectConflictColumns(parts []*partWrapper) map[string]map[string]struct{}
 					columnTypes[decoded] = valueTypes
 				}
 				valueTypes[vt] = struct{}{}
+				if decoded != name {
+					if alreadyTyped[cf] == nil {
+						alreadyTyped[cf] = make(map[string]struct{})
+					}
+					alreadyTyped[cf][decoded] = struct{}{}
+				}
 			}
 		}
 	}
 	var conflictColumns map[string]map[string]struct{}
 	for cf, columnTypes := range familyColumnTypes {
 		for name, valueTypes := range columnTypes {
-			if len(valueTypes) <= 1 {
+			if _, typed := alreadyTyped[cf][name]; len(valueTypes) <= 1 && !typed {
 				continue
 			}
 			if conflictColumns == nil {
